@@ -17,6 +17,9 @@ var impls = map[string]func(string) string{
 	"fmt.next":       implFmtNext,
 	"hash":           implHash,
 	"ip.ops":         implIpOps,
+	"prune.run":      implPruneRun,
+	"prune.classify": implPruneClassify,
+	"store.name":     implStoreName,
 	"http.chunk":     implHTTP,
 	"http.index":     implHTTP,
 	"sparse.ops":     implSparseOps,
